@@ -101,32 +101,42 @@ var zzC19Ops = []zzC19Op{
 	{"InvalidateDeviceCodeSession", false, func(s *MemoryStore, c context.Context, k string) { s.InvalidateDeviceCodeSession(c, "dc"+k) }},
 }
 
-// zzC19Race runs op i concurrently with every operation on one store (native confirmation; needs -race).
+// zzC19Race runs op i concurrently with every operation, pair by pair, on one store (native confirmation;
+// needs -race). Three goroutines per side for a short while: lock-order and recursive-read-lock deadlocks
+// need a writer to arrive in a narrow window.
 func zzC19Race(i int) {
 	ctx := context.Background()
 	for j := range zzC19Ops {
+		if !zz.Confirming() && j != i {
+			// translation-validation replays only stress the operation against itself, so that a
+			// defect of one operation is reported for that operation and not for every other one
+			continue
+		}
 		s := zzC19Store()
+		stop := time.Now()
+		if zz.Confirming() {
+			stop = stop.Add(150 * time.Millisecond)
+		}
 		var wg sync.WaitGroup
-		wg.Add(2)
-		go func() {
-			defer wg.Done()
-			for n := 0; n < 12; n++ {
-				zzC19Ops[i].run(s, ctx, "")
-				zzC19Ops[i].run(s, ctx, "x")
+		for g := 0; g < 6; g++ {
+			k := i
+			if g%2 == 1 {
+				k = j
 			}
-		}()
-		go func() {
-			defer wg.Done()
-			for n := 0; n < 12; n++ {
-				zzC19Ops[j].run(s, ctx, "")
-				zzC19Ops[j].run(s, ctx, "x")
-			}
-		}()
+			wg.Add(1)
+			go func() {
+				defer wg.Done()
+				for n := 0; n < 12 || time.Now().Before(stop); n++ {
+					zzC19Ops[k].run(s, ctx, "")
+					zzC19Ops[k].run(s, ctx, "x")
+				}
+			}()
+		}
 		done := make(chan struct{})
 		go func() { wg.Wait(); close(done) }()
 		select {
 		case <-done:
-		case <-time.After(20 * time.Second):
+		case <-time.After(25 * time.Second):
 			panic("ZZ-DEADLOCK " + zzC19Ops[i].name + " || " + zzC19Ops[j].name)
 		}
 	}
